@@ -96,7 +96,8 @@ std::string to_text(const GCase& c)
     std::ostringstream s;
     const bool         big = c.big && (c.kind == 8 || c.kind == 9); // large universes only for the unbounded containers
     int                uni = big ? 70 + (c.seed % 230) : c.cap + c.extra;
-    const size_t       lim = big ? 320 : (c.cap >= 16 ? 128 : 8); // long ranges only where they can matter
+    const bool         branchy = c.kind == 3 || c.kind == 4 || c.kind == 5; // lfu ties / rr: the model enumerates victims, long ranges explode
+    const size_t       lim = big ? 320 : (c.cap >= 16 && !branchy ? 128 : 8); // long ranges only where they can matter
     s << "kind " << kKindName[c.kind] << "\nsync " << (c.sync ? 1 : 0) << "\ntypes " << c.types << "\ncap " << c.cap << "\nuni " << uni << "\nmlf "
       << kMlf[c.mlf_idx] << "\nttl " << c.ttl << "\ntick " << c.tick << "\nratio " << kRatioN[c.ratio_idx] << " " << kRatioD[c.ratio_idx] << "\nseed "
       << c.seed << "\n";
@@ -306,9 +307,15 @@ rc::Gen<GOp> gen_op(const Profile& p)
     auto ttl   = weighted<long long>(p.ttls);
     auto elem  = rc::gen::build<GElem>(rc::gen::set(&GElem::k, uni_int(0, 47)), rc::gen::set(&GElem::ttl, ttl));
     auto small = rc::gen::resize(8, rc::gen::container<std::vector<GElem>>(elem));
-    auto belem = rc::gen::build<GElem>(rc::gen::set(&GElem::k, uni_int(0, 319)), rc::gen::set(&GElem::ttl, ttl));
-    auto bulk  = rc::gen::resize(300, rc::gen::container<std::vector<GElem>>(belem));
-    auto elems = rc::gen::oneOf(small, small, small, small, small, bulk); // `bulk` is cut to 8 elements when printed unless the case is big
+    // long ranges are expanded arithmetically from three generated numbers (generating 300 elements one by one for a
+    // sixth of all operations dominated the run time); they are cut to 8 elements when printed unless the case is "big"
+    auto bulk = rc::gen::map(rc::gen::tuple(uni_int(9, 300), uni_int(0, 319), uni_int(1, 7), ttl), [](const std::tuple<int, int, int, long long>& t) {
+        std::vector<GElem> v;
+        for (int i = 0; i < std::get<0>(t); ++i)
+            v.push_back(GElem{(std::get<1>(t) + i * std::get<2>(t)) % 320, std::get<3>(t)});
+        return v;
+    });
+    auto elems = rc::gen::oneOf(small, small, small, small, small, bulk);
     std::vector<std::pair<std::size_t, long long>> dts = {{2, 0},        {2, 1},        {3, 999999},    {6, 1000000},  {3, 1000001}, {6, 2000000},
                                                           {6, 3000000},  {3, 2999999},  {6, 5000000},   {2, 4999999},  {2, 5000001}, {3, 8000000},
                                                           {2, 10000000}, {2, 50000000}, {1, 1000000000}};
